@@ -229,8 +229,9 @@ def _add_parents(tree):
 
 
 class Repo(object):
-    def __init__(self, root, package='bitcoin', include_examples=False):
+    def __init__(self, root, package='bitcoin', include_examples=False, desugar=True):
         self.root = root
+        self.desugar_log = []
         self.package = package
         self.modules = {}
         self.functions = {}
@@ -253,7 +254,30 @@ class Repo(object):
                     parts = parts[:-1]
                 name = '.'.join(parts)
                 self.modules[name] = ModuleInfo(name, path, rel, is_pkg)
+        self._index_all()
+        if desugar:
+            from pblint import desugar as _ds
+            if os.path.exists(_ds.INVENTORY):
+                try:
+                    self.desugar_log = _ds.Desugar(self).run()
+                except RecursionError:
+                    raise AnalysisError('desugaring pre-pass did not terminate')
+                if self.desugar_log:
+                    for m in self.modules.values():
+                        ast.fix_missing_locations(m.tree)
+                    self._index_all()
+
+    def _index_all(self):
+        self.functions = {}
+        self.classes = {}
+        self._fold_memo = {}
+        self._folding = set()
         for m in self.modules.values():
+            m.bindings = {}
+            m.star_imports = []
+            m.functions = {}
+            m.classes = {}
+            m.all_names = None
             _add_parents(m.tree)
             self._index_module(m)
         for c in list(self.classes.values()):
